@@ -503,6 +503,73 @@ def raising_scenarios(ctx, variant, scen, raises, rng):
         ctx.broke('correspondence', f'raises:{name}', f'the model of {func} raises ({what}) but the implementation returns')
 
 
+# ------------------------------------------------------------------------------------------- fresh-process precision oracle
+
+FRESH_SCRIPT = r"""
+import json, sys
+import numpy as np
+rng = np.random.default_rng(int(sys.argv[1]))
+import skfem.helpers as H
+import skfem.autodiff.helpers as JH          # NOTHING has been assembled in this process
+import jax.numpy as jnp
+out = []
+n, tr = 3, (2, 3)
+u, v, w3 = (rng.random((n,) + tr) + 0.1 for _ in range(3))
+A, B = rng.random((n, n) + tr) + 0.1, rng.random((n, n) + tr) + 0.1
+T = rng.random((n, n, n) + tr)
+w = rng.random(tr)
+cases = [('dot', (u, v)), ('ddot', (A, B)), ('dddot', (T, T[::-1])), ('prod', (u, v)), ('prod', (u, v, w3)), ('mul', (A, u)),
+         ('trace', (A,)), ('transpose', (A,)), ('det', (A,)), ('det', (A[:2, :2],)), ('eye', (w, n))]
+for name, args in cases:
+    jargs = [jnp.asarray(a) if isinstance(a, np.ndarray) else a for a in args]
+    rec = {'helper': name, 'nargs': len(args)}
+    try:
+        got = getattr(JH, name)(*jargs)
+        ref = np.asarray(getattr(H, name)(*args), dtype=float)
+        g = np.asarray(got)
+        rec.update(dtype=str(g.dtype), input_dtype=str(jargs[0].dtype), err=float(np.abs(g.astype(float) - ref).max() / (1 + np.abs(ref).max())))
+    except Exception as e:
+        rec.update(error=type(e).__name__ + ': ' + str(e))
+    out.append(rec)
+print('RESULT ' + json.dumps(out))
+"""
+
+
+def fresh_process_start(ctx):
+    """the JAX helpers used in a FRESH interpreter before any NonlinearForm is assembled must work in double precision"""
+    import subprocess
+    import sys
+    return subprocess.Popen([sys.executable, '-c', FRESH_SCRIPT, str(ctx.seed)], env=dict(os.environ), stdout=subprocess.PIPE,
+                            stderr=subprocess.PIPE, text=True)
+
+
+def fresh_process_collect(ctx, proc):
+    try:
+        out, err = proc.communicate(timeout=600)
+    except Exception:  # noqa: BLE001
+        proc.kill()
+        ctx.broke('harness', 'fresh-process oracle', 'timeout')
+        return
+    line = [ln for ln in out.split('\n') if ln.startswith('RESULT ')]
+    if proc.returncode != 0 or not line:
+        ctx.broke('harness', 'fresh-process oracle', (err or out)[-1200:])
+        return
+    worst = 0.0
+    for rec in json.loads(line[0][7:]):
+        ctx.count(('fresh-process', rec['helper'], rec['nargs']))
+        ctx.hist('fresh_process_helper', rec['helper'])
+        key = f"fresh-process-precision:{rec['helper']}"
+        if 'error' in rec:
+            ctx.fail(key, f"skfem.autodiff.helpers.{rec['helper']} raises in a fresh process: {rec['error']}", rec)
+            continue
+        worst = max(worst, rec['err'])
+        if rec['dtype'] != 'float64' or rec['input_dtype'] != 'float64' or not rec['err'] <= 1e-12:
+            ctx.fail(key, f"skfem.autodiff.helpers.{rec['helper']} used before any assembly: result dtype {rec['dtype']} (float64 data became "
+                     f"{rec['input_dtype']}), relative deviation from the NumPy variant {rec['err']:.2e} > 1e-12",
+                     dict(rec, how='fresh interpreter: import skfem.autodiff.helpers; call the helper on float64 data; no NonlinearForm assembled before'))
+    ctx.extra['fresh_process_max_relative_deviation'] = worst
+
+
 # ------------------------------------------------------------------------------------------- NonlinearForm bookkeeping
 
 class NLStub:
@@ -637,6 +704,7 @@ def run(ctx):
     child = subprocess.Popen([sys.executable, '-m', 'vlib.c20_child', str(ctx.seed), ctx.tier, out_json],
                              cwd=os.path.dirname(os.path.dirname(os.path.dirname(os.path.abspath(__file__)))),
                              env=dict(os.environ, PYTHONPATH=os.environ.get('PYTHONPATH', '')), stdout=subprocess.PIPE, stderr=subprocess.STDOUT, text=True)
+    fresh = fresh_process_start(ctx)
     # 2. build + prove
     gens = ((['gen/C20Gen_np.v', 'gen/C20Gen_jx.v', 'gen/C20Agree.v'] if gen_ok else []) + (['gen/C20Gen_nl.v'] if nl_ok else [])
             + (['gen/C20Gen_ops.v'] if ops_ok else []))
@@ -658,6 +726,7 @@ def run(ctx):
     if nl_ok:
         nonlinear_correspondence(ctx, rng)
     # 4. oracles: started before the Coq work (own random stream), collected here
+    fresh_process_collect(ctx, fresh)
     try:
         child_out, _ = child.communicate(timeout=ctx.n(600, 3000))
     except subprocess.TimeoutExpired:
